@@ -3,6 +3,7 @@
 # These hooks let an external verification harness observe the state of a
 # rewrite at its linearization points. With the guard off, ``ENABLED`` is
 # False and every hook site is a dead ``if`` branch.
+import functools
 import os
 from typing import Any, Callable, Optional
 
@@ -21,3 +22,21 @@ def emit(event: str, **fields: Any) -> None:
     """Reports an event to the installed sink, if any."""
     if _sink is not None:
         _sink(event, fields)
+
+
+def traced(name: str, fn: Callable) -> Callable:
+    """Wraps ``fn`` so that ``<name>_begin`` is reported with its arguments
+    before it runs and ``<name>_end`` with its result (or error) after."""
+
+    @functools.wraps(fn)
+    def wrapper(*args: Any, **kwargs: Any) -> Any:
+        emit(name + "_begin", args=args, kwargs=kwargs)
+        try:
+            result = fn(*args, **kwargs)
+        except BaseException as err:
+            emit(name + "_end", args=args, kwargs=kwargs, error=err)
+            raise
+        emit(name + "_end", args=args, kwargs=kwargs, result=result)
+        return result
+
+    return wrapper
